@@ -13,6 +13,9 @@ def cand_family(name):
         c = [((0,), (1,)), ((1,), (0,)), ((0, 1), (2,)), ((2,), (0, 1)), ((2,), (1,)), ((0,), (2, 3)), ((2, 3), (0, 1)),
              ((0, 1), (2, 3)), ((1,), (2,)), ((3,), (0, 1, 2)), ((1, 2), (0,)), ((3,), (2,))]
         return nodes, c
+    if name == "n4q":
+        nodes, c = cand_family("n4")
+        return nodes, c[:9]
     if name == "n5":
         nodes = [0, 1, 2, 3, 4]
         c = [((0,), (1,)), ((1,), (0,)), ((0, 1), (2, 3, 4)), ((2, 3, 4), (0, 1)), ((2,), (0,)), ((4,), (0, 1, 2, 3)),
@@ -144,13 +147,13 @@ def build(spec):
 def obligations(tier, seed):
     out = []
     q = tier == "quick"
-    plans = [("n4", 4, False)] if q else [("n4", 4, True), ("n5", 6, False), ("str", 3, False)]
+    plans = [("n4q", 3, False)] if q else [("n4", 4, True), ("n5", 6, False), ("str", 3, False)]
     for cname, nfix, rev in plans:
         for fixed in itertools.product([0, 1], repeat=nfix):
             for what in ("signature", "reciprocity"):
                 out.append({"family": what, "cands": cname, "fixed": list(fixed), "what": what, "reverse": rev,
-                            "mmax": 6 if q else 7})
-    for cname, nfix in ([("n4", 3)] if q else [("n4", 3), ("n5", 5)]):
+                            "mmax": 5 if q else 7})
+    for cname, nfix in ([("n4q", 2)] if q else [("n4", 3), ("n5", 5)]):
         for fixed in itertools.product([0, 1], repeat=nfix):
             for fm in ("none", "order", "size"):
                 out.append({"family": "degree", "cands": cname, "fixed": list(fixed), "what": "degree", "fmode": fm})
@@ -167,10 +170,10 @@ def budget(tier):
 
 META = {
     "bounds": {
-        "quick": "DirectedHypergraph on 4 nodes: every sub-family of 12 candidate hyperedges (sizes 2-4, with reverse "
-                 "pairs, nested and overlapping shapes), bound m in [2,6] (chosen by the solver, including bounds below "
+        "quick": "DirectedHypergraph on 4 nodes: every sub-family of 9 candidate hyperedges (sizes 2-4, with reverse "
+                 "pairs, nested and overlapping shapes), bound m in [2,5] (chosen by the solver, including bounds below "
                  "the largest hyperedge), degree filter f an unbounded symbolic integer",
-        "thorough": "m in [2,7]; reversed insertion order; a 14-candidate family on 6 nodes with sizes up to 6; string labels",
+        "thorough": "12 candidates on 4 nodes, m in [2,7]; reversed insertion order; a 14-candidate family on 6 nodes with sizes up to 6; string labels",
     },
     "stand_ins": [],
     "outside_claim": ["candidate families other than the listed ones; overlapping source/target sets"],
